@@ -36,6 +36,9 @@ Definition upd_dev_state (old : rdev) (fup fdn : N) (kw : bool) : rdev :=
   {| rd_eui := rd_eui old; rd_addr := rd_addr old; rd_appkey := rd_appkey old; rd_appskey := rd_appskey old;
      rd_nwkskey := rd_nwkskey old; rd_app := rd_app old; rd_state := rd_state old; rd_fup := fup;
      rd_fdn := fdn; rd_relaxed := rd_relaxed old; rd_kw := kw; rd_tag := rd_tag old |}.
+Definition dn_times (old : downm) (sent ackt : Z) (fc : N) : downm :=
+  {| dn_eui := dn_eui old; dn_data := dn_data old; dn_port := dn_port old; dn_ack := dn_ack old; dn_created := dn_created old;
+     dn_sent := sent; dn_acktime := ackt; dn_fcnt := fc |}.
 Definition upd_gw (old new : gway) : gway :=
   {| gw_eui := gw_eui old; gw_lat := gw_lat new; gw_lon := gw_lon new; gw_alt := gw_alt new; gw_ip := gw_ip new; gw_strict := gw_strict new |}.
 
@@ -97,6 +100,26 @@ Definition a_step (s : astore) (o : regop) : astore * regres :=
     | Some d => (set_devs s (map (fun x => if rd_eui x =? e then upd_dev_state x (rd_fup x) ((rd_fdn x + 1) mod 65536) (rd_kw x) else x) (a_devs s)), RCnt (rd_fdn d))
     | None => (s, RNotFound)
     end
+  (* the message's transmission is recorded: when, and in answer to which uplink counter *)
+  | SetMessageSentTime e c sent fc =>
+    let hit x := (dn_eui x =? e) && (dn_created x =? c)%Z in
+    if existsb hit (a_downs s)
+    then (set_downs s (map (fun x => if hit x then dn_times x sent (dn_acktime x) fc else x) (a_downs s)), ROk) else (s, RNotFound)
+  (* an ACK on uplink counter fc acknowledges what was transmitted in answer to fc and is not acknowledged yet *)
+  | UpdateMessageAckTime e fc ackt =>
+    let hit x := (dn_eui x =? e) && (dn_fcnt x =? fc) && (0 <? dn_sent x)%Z && (dn_acktime x =? 0)%Z in
+    if existsb hit (a_downs s)
+    then (set_downs s (map (fun x => if hit x then dn_times x (dn_sent x) ackt (dn_fcnt x) else x) (a_downs s)), ROk) else (s, RNotFound)
+  (* transmitted, unacknowledged messages that ask for an acknowledgement become unsent again *)
+  | ResetActiveAcks e =>
+    let hit x := (dn_eui x =? e) && (0 <? dn_sent x)%Z && (dn_acktime x =? 0)%Z && dn_ack x in
+    (set_downs s (map (fun x => if hit x then dn_times x 0%Z (dn_acktime x) 0 else x) (a_downs s)), ROk)
+  (* the oldest unsent message of the device *)
+  | GetNextUnsentMessage e =>
+    (s, match sort_by dn_created (filter (fun x => (dn_eui x =? e) && (dn_sent x =? 0)%Z) (a_downs s)) with
+        | m :: _ => RDowns [m]
+        | [] => RNotFound
+        end)
   end.
 
 Fixpoint a_run (s : astore) (ops : list regop) : astore * list regres :=
